@@ -463,11 +463,14 @@ def impl_val(rec):
 
 
 def key_for(c, symptom, rec):
+    """Stable, neutral class of a failing case: symptom x mesh parity x (for even meshes) whether the Nyquist plane is inside
+    the binned range x (bin_kppi) whether the k_perp range ends inside the mesh.  Only the smallest case of a class is reported."""
     n = c['n']
+    kern = 'bin_' + c['kind']
     if symptom == 'oob':
-        return f"{'bin_' + c['kind']}:out-of-bounds-read"
+        return f'{kern}:out-of-bounds-access'
     if n % 2 == 1:
-        return 'fold:odd-mesh'
+        return f'{symptom}:odd-mesh'
     E2 = rec['kedges2']
     if c['kind'] == 'kppi':
         f = fftfreq_int(n)
@@ -475,13 +478,11 @@ def key_for(c, symptom, rec):
         kmax_inside = E2[-1] <= max_perp
         nyq_in = rec['medges2'][-1] > (n // 2) ** 2
         if kmax_inside and not nyq_in:
-            return 'bin_kppi:modes-dropped-after-kperp-leaves-range'
+            return f'{kern}:{symptom}:even-mesh:kperp-range-ends-inside-mesh'
         if nyq_in:
-            return 'nyquist-plane-counted-twice'
-        if kmax_inside:
-            return 'bin_kppi:modes-dropped-after-kperp-leaves-range'
-        return 'bin_kppi:' + symptom
-    return 'nyquist-plane-counted-twice' if E2[-1] > (n // 2) ** 2 else 'bin_kmu:' + symptom
+            return f'{symptom}:even-mesh:nyquist-plane-in-range'
+        return f'{kern}:{symptom}:even-mesh'
+    return f'{symptom}:even-mesh:nyquist-plane-in-range' if E2[-1] > (n // 2) ** 2 else f'{kern}:{symptom}:even-mesh'
 
 
 def judge(c, rec, exp):
@@ -572,7 +573,7 @@ def violation(c, rec, exp, symptom, mode, detail):
 
 
 def size_of(c):
-    return (c['n'], len(c.get('kedges') or []) or 99, len(c.get('mu') or []) if isinstance(c.get('mu'), list) else 9,
+    return (c['n'] < 3, c['n'], len(c.get('kedges') or []) or 99, len(c.get('mu') or []) if isinstance(c.get('mu'), list) else 9,
             c.get('npi', 0), len(c.get('poles') or []))
 
 
